@@ -24,15 +24,15 @@ import (
 // kills only the child (the parent records it as a crash of that case).
 
 type dmgCase struct {
-	ID    int
-	Seg   int    // which segment's log file
-	Kind  string // flip | overwrite | truncate | zerotail
-	Pos   int
-	Len   int
-	Bit   uint
-	Fill  []byte
-	Mode  string // reopen | live-cold | live-warm
-	What  string
+	ID   int
+	Seg  int    // which segment's log file
+	Kind string // flip | overwrite | truncate | zerotail
+	Pos  int
+	Len  int
+	Bit  uint
+	Fill []byte
+	Mode string // reopen | live-cold | live-warm
+	What string
 }
 
 type dquery struct {
